@@ -53,6 +53,12 @@ func (e *Enc) applyContractVars(x ssa.Value, name string, fc *FuncC, vars map[st
 	pos := x.Pos()
 	pre := st.clone()
 	cpre := &Ctx{e: e, st: pre, old: pre, vars: vars}
+	// the callee's spec values are functions of its entry state
+	for _, sp := range fc.Specs {
+		v := cpre.eval(sp.E)
+		v.T = e.def("cspec_"+sp.Name, v.T)
+		vars[sp.Name] = v
+	}
 	e.oblCtr["callsite:"+name]++
 	site := fmt.Sprintf("call:%s@%d", name, e.oblCtr["callsite:"+name])
 	for k, rq := range fc.Req {
